@@ -80,6 +80,15 @@ func c17HashTargets(gs []*groups.G) []*c17HT {
 					if dst == nil {
 						return g.Point()
 					}
+					// two routes to a group with a custom tag: the group constructor, and a suite configured with DIFFERENT
+					// tags for G1 and G2 (each group must use its own)
+					other := append([]byte("C17-OTHER-GROUP-TAG-"), dst...)
+					if len(dst)%2 == 0 {
+						if kind == "G1" {
+							return kilic.NewBLS12381SuiteWithDST(append([]byte(nil), dst...), other).G1().Point()
+						}
+						return kilic.NewBLS12381SuiteWithDST(other, append([]byte(nil), dst...)).G2().Point()
+					}
 					if kind == "G1" {
 						return kilic.NewGroupG1(dst...).Point()
 					}
